@@ -164,4 +164,7 @@ def untranslated : List String := []
 /-- names of the translated definitions -/
 def translated : List String := ["EndBlocker_cond_1(requestContext_BatchState)", "EndBlocker_call_DeleteRequestBatchExpiration_1_arg2(read_ctx_BlockHeight)", "EndBlocker_cond_2(requestContext_State)", "EndBlocker_cond_3(requestContext_State)", "EndBlocker_cond_4(requestContext_Repeated,requestContext_RepeatedTotal,requestContext_BatchCounter)", "EndBlocker_call_AddNewRequestBatch_1_arg2(read_ctx_BlockHeight,requestContext_Timeout,requestContext_RepeatedFrequency)", "EndBlocker_cond_5(requestContext_State)", "EndBlocker_call_DeleteNewRequestBatch_1_arg2(read_ctx_BlockHeight)", "EndBlocker_cond_6(read_len_providers,requestContext_ResponseThreshold)", "EndBlocker_cond_7(requestContext_State)", "EndBlocker_call_AddRequestBatchExpiration_1_arg2(read_ctx_BlockHeight,requestContext_Timeout)", "EndBlocker_call_DeleteNewRequestBatch_2_arg2(read_ctx_BlockHeight)", "EndBlocker_cond_8(read_len_str)", "UpdateRequestContext_cond_1(read_len_requestContext_ModuleName)", "UpdateRequestContext_cond_2(requestContext_State)", "UpdateRequestContext_cond_3(read_len_requestContext_ModuleName)", "UpdateRequestContext_cond_4(respThreshold)", "UpdateRequestContext_cond_5(read_len_pds)", "UpdateRequestContext_guard_6(respThreshold,read_len_pds)", "UpdateRequestContext_cond_7(respThreshold)", "UpdateRequestContext_cond_8(read_serviceFeeCap_Empty)", "UpdateRequestContext_guard_9(timeout,maxRequestTimeout)", "UpdateRequestContext_cond_10(timeout)", "UpdateRequestContext_timeout_1(requestContext_Timeout)", "UpdateRequestContext_cond_11(repeatedFreq)", "UpdateRequestContext_repeatedFreq_1(requestContext_RepeatedFrequency)", "UpdateRequestContext_guard_12(repeatedFreq,timeout)", "UpdateRequestContext_guard_13(repeatedTotal,requestContext_BatchCounter)", "UpdateRequestContext_cond_14(read_len_pds)", "UpdateRequestContext_cond_15(timeout)", "UpdateRequestContext_requestContext_Timeout_1(timeout)", "UpdateRequestContext_cond_16(repeatedFreq)", "UpdateRequestContext_requestContext_RepeatedFrequency_1(repeatedFreq)", "UpdateRequestContext_cond_17(repeatedTotal)", "UpdateRequestContext_requestContext_RepeatedTotal_1(repeatedTotal)", "StartRequestContext_cond_1(read_len_requestContext_ModuleName)", "StartRequestContext_cond_2(requestContext_State)", "StartRequestContext_guard_3(requestContext_Repeated,requestContext_RepeatedTotal,requestContext_BatchCounter)", "StartRequestContext_cond_4(read_k_HasRequestBatchExpiration_ctx_requestContextID,read_k_HasNewRequestBatch_ctx_requestContextID)", "StartRequestContext_call_AddNewRequestBatch_1_arg2(read_ctx_BlockHeight)"]
 
+/-- every rejecting guard of the translated functions, in source order -/
+def guards : List String := ["UpdateRequestContext: !found", "UpdateRequestContext: err := k.CheckAuthority(ctx, consumer, requestContextID, false); err != nil", "UpdateRequestContext: err := types.ValidateRequestContextUpdating(providers, serviceFeeCap, timeout, repeatedFreq, repeatedTotal); err != nil", "UpdateRequestContext: respThreshold > uint32(len(pds))", "UpdateRequestContext: err := k.validateServiceFeeCap(ctx, serviceFeeCap); err != nil", "UpdateRequestContext: timeout > maxRequestTimeout", "UpdateRequestContext: repeatedFreq < uint64(timeout)", "UpdateRequestContext: repeatedTotal >= 1 && repeatedTotal < int64(requestContext.BatchCounter)", "StartRequestContext: !found", "StartRequestContext: err := k.CheckAuthority(ctx, consumer, requestContextID, false); err != nil", "StartRequestContext: requestContext.Repeated && requestContext.RepeatedTotal >= 0 && int64(requestContext.BatchCounter) >= requestContext.RepeatedTotal", "Keeper.CreateRequestContext: _, err := k.GetResponseCallback(moduleName); err != nil", "Keeper.CreateRequestContext: _, err := k.GetStateCallback(moduleName); err != nil", "Keeper.CreateRequestContext: err := types.ValidateRequest( serviceName, serviceFeeCap, providers, input, timeout, repeated, repeatedFrequency, repeatedTotal, ); err != nil", "Keeper.CreateRequestContext: responseThreshold < 1 || int(responseThreshold) > len(providers)", "Keeper.CreateRequestContext: !found", "Keeper.CreateRequestContext: err := types.ValidateRequestInput(input); err != nil", "Keeper.CreateRequestContext: err := k.validateServiceFeeCap(ctx, serviceFeeCap); err != nil", "Keeper.CreateRequestContext: timeout > maxRequestTimeout", "Keeper.PauseRequestContext: !found", "Keeper.PauseRequestContext: err := k.CheckAuthority(ctx, consumer, requestContextID, false); err != nil", "Keeper.KillRequestContext: !found", "Keeper.KillRequestContext: err := k.CheckAuthority(ctx, consumer, requestContextID, false); err != nil", "Keeper.AddResponse: !found", "Keeper.AddResponse: !provider.Equals(requestProvider)", "Keeper.AddResponse: !k.IsRequestActive(ctx, requestID)", "Keeper.AddResponse: err := types.ValidateResponseOutput(output); err != nil", "Keeper.AddResponse: err := k.AddEarnedFee(ctx, provider, request.ServiceFee); err != nil", "Keeper.CheckAuthority: !found", "Keeper.CheckAuthority: consumer.String() != requestContext.Consumer", "Keeper.CheckAuthority: checkModule && len(requestContext.ModuleName) > 0", "Keeper.validateServiceFeeCap: len(serviceFeeCap) != 1 || serviceFeeCap[0].Denom != baseDenom"]
+
 end Irismod.Gen.PureServiceSched
